@@ -548,7 +548,7 @@ Proof. vm_compute. repeat split; reflexivity. Qed.
    Proofs/MarkupShrinkLemmas.v: an undecorated colorize (the plain formatter; remove_format of any formatter) only DELETES
    characters - recognised tags, the backslash of a backslash-lessthan pair - and never a line break.
    Proofs/HelpPlainLemmas.v: on the line of a label it deletes at least the markup the alignment allowed for. *)
-From Clikit Require Import Proofs.MarkupLemmas Proofs.MarkupShrinkLemmas Proofs.HelpPlainLemmas.
+From Clikit Require Import Proofs.MarkupLemmas Proofs.MarkupShrinkLemmas Proofs.HelpPlainLemmas Proofs.HelpCleanLemmas.
 
 (* deletes m out: out is m with characters other than the line break deleted (Inductive: keep a character, or drop one
    that is not NL).  For EVERY style table, stack and message: *)
@@ -664,6 +664,27 @@ Proof.
   eapply page_fits_ansi_clean_lemma; [exact Hk|exact HW|apply application_page_one_line; eassumption|exact Hg|exact Hs].
 Qed.
 Print Assumptions application_help_fits_ansi_visible.
+(* clean_layout from the configuration (Proofs/HelpCleanLemmas.v): names (application, commands, sub-commands, options,
+   arguments: what the labels are made of) without ESC and backslash; descriptions, value names, aliases, help texts and
+   the defaults as json.dumps writes them without ESC - json.dumps writes no ESC (it escapes control characters); a float
+   default is carried as its text. *)
+Theorem command_page_is_clean : forall sty app_name ch aliases help subs,
+  (match app_name with Some n => Forall good n | None => True end) -> Forall (Forall good) (chain_names ch) ->
+  Forall arg_clean (chain_args ch) -> Forall opt_clean (own_opts ch) -> Forall opt_clean (base_opts ch) ->
+  Forall sub_clean subs -> Forall no_esc aliases -> no_esc (odesc help) ->
+  clean_layout (command_page sty app_name ch aliases help subs).
+Proof. exact command_page_clean. Qed.
+Print Assumptions command_page_is_clean.
+Theorem application_page_is_clean : forall sty app_name display version gopts cmds help,
+  (match app_name with Some n => Forall good n | None => True end) ->
+  no_esc (odesc display) -> no_esc (odesc version) -> Forall opt_clean gopts ->
+  Forall (fun c => Forall good (ac_name c) /\ no_esc (ac_desc c)) cmds -> no_esc (odesc help) ->
+  clean_layout (application_page sty app_name display version gopts cmds help).
+Proof. exact application_page_clean. Qed.
+Print Assumptions application_page_is_clean.
+Theorem json_writes_no_esc : forall v, pyval_clean v -> no_esc (json v).
+Proof. exact json_no_esc. Qed.
+Print Assumptions json_writes_no_esc.
 Theorem strip_sgr_line_by_line : forall s, split_on 10%N (strip_sgr s) = map strip_sgr (split_on 10%N s).
 Proof. exact strip_sgr_lines. Qed.
 Print Assumptions strip_sgr_line_by_line.
@@ -763,7 +784,7 @@ Example ex_ansi_clean_applied : forall W s, (1 <= W)%Z -> render_page W ex_ansif
 Proof.
   intros W s HW H. apply (page_fits_ansi_visible W ex_ansif ex_bpage s); [exact I|exact HW| | |exact H].
   - apply command_page_one_line; cbn; repeat constructor; try nl_char.
-  - apply clean_layoutb_ok. vm_compute. reflexivity.
+  - apply command_page_is_clean; cbn; repeat constructor; try discriminate; try (apply json_writes_no_esc; exact I).
 Qed.
 
 (* REFUTED without the hypothesis on the labels: the visible text of an ANSI line can be W long.  The label
